@@ -470,6 +470,7 @@ func checkTaintedBounds(p *Prog, r *Report, entries []*ssa.Function) {
 			fld := p.Field(modPath, "SumHead", name)
 			gotLo, gotHi := false, false
 			if okRet != nil && fld != nil {
+				var cmps []cmpFact
 				for _, f := range FactsAt(okRet) {
 					bo, ok := f.Cond.(*ssa.BinOp)
 					if !ok || !isFieldLoad(bo.X, fld) {
@@ -479,10 +480,19 @@ func checkTaintedBounds(p *Prog, r *Report, entries []*ssa.Function) {
 					if !f.Val {
 						op = negOp(op)
 					}
-					if k, isK := constInt(bo.Y); (op == token.GEQ && isK && k >= 0) || (op == token.GTR && isK && k >= -1) {
+					cmps = append(cmps, cmpFact{op, bo.Y})
+				}
+				// the field may be filled from a helper that reads and validates it
+				for _, st := range storesToField(p, fld) {
+					if st.Parent() == rf && InstrDominates(st, okRet) {
+						cmps = append(cmps, cmpFactsVia(st.Val, okRet)...)
+					}
+				}
+				for _, c := range cmps {
+					if k, isK := constInt(c.other); (c.op == token.GEQ && isK && k >= 0) || (c.op == token.GTR && isK && k >= -1) {
 						gotLo = true
 					}
-					if op == token.LEQ || op == token.LSS {
+					if c.op == token.LEQ || c.op == token.LSS {
 						gotHi = true
 					}
 				}
